@@ -411,24 +411,34 @@ def analyzeOld := analyzeWith Cfg.old
 
 /-! ### command model: what runs when -/
 
-inductive Cmd | build | check
+/-- the commands that go through `loading.MustLoadGraphForBuild`; `build`, `test` and `run` then call
+    `cmds.RunBuild` with the user's target patterns -/
+inductive Cmd | build | test | run | check
 deriving DecidableEq, Repr
+
+/-- what the user asked for: the command and its target patterns / tag filters (uninterpreted: the analysis never
+    looks at them — `RunBuild` calls `CheckTargetConstraints(graph.GetNodes())` on ALL loaded nodes before it selects) -/
+structure Request where
+  cmd      : Cmd
+  patterns : List Bytes
+  tags     : List Bytes
+deriving Repr
 
 inductive Ev
   | diagnostic (k : Kind)
   | exitFail
-  | execute      -- the executor is started (only `build`)
+  | execute      -- selection, then the executor is started (`build`, `test`, `run`)
   | exitOk
 deriving DecidableEq, Repr
 
-/-- `grog build` / `grog check`: analysis first; on reject print and exit 1; on accept `check`
-    reports success, `build` goes on to selection and the executor. -/
-def runCmd (cfg : Cfg) (c : Cmd) (ws : Bytes) (ps : List Pkg) : List Ev :=
+/-- `grog build|test|run|check`: analysis of the whole loaded graph first; on reject print and exit 1; on accept
+    `check` reports success, the others go on to selection and the executor. -/
+def runCmd (cfg : Cfg) (r : Request) (ws : Bytes) (ps : List Pkg) : List Ev :=
   match analyzeWith cfg ws ps with
   | .reject k => [.diagnostic k, .exitFail]
   | .accept =>
-    match c with
+    match r.cmd with
     | .check => [.exitOk]
-    | .build => [.execute, .exitOk]
+    | _ => [.execute, .exitOk]
 
 end Grog.Analysis
